@@ -223,9 +223,11 @@ class Built:
     pass
 
 
-def build_rockit(case, rockit, with_method=True, with_values=True, with_solver=True):
+def build_rockit(case, rockit, with_method=True, with_values=True, with_solver=True, factory=None):
+    """factory(**horizon kwargs) creates the stage to populate (default: a new Ocp; C12 passes
+    master.stage or rockit.Stage)"""
     import casadi as ca
-    ocp_cls = rockit.Ocp
+    ocp_cls = factory or rockit.Ocp
     B = Built()
 
     def hor(h):
@@ -244,6 +246,7 @@ def build_rockit(case, rockit, with_method=True, with_values=True, with_solver=T
         kw["T"] = hor(Th)
     ocp = ocp_cls(**kw)
     B.ocp = ocp
+    B.master = ocp if factory is None else getattr(ocp, "master", None)
     S = {k: [] for k in SYMC}
     B.objs = {k: [] for k in ("x", "u", "z", "q", "p", "v")}
 
@@ -302,7 +305,9 @@ def build_rockit(case, rockit, with_method=True, with_values=True, with_solver=T
         ocp.set_T(S["v"][Th["var"]])
     B.S = S
 
-    def ex(e):
+    def ex(e, st=None):
+        # st: evaluate on another stage that shares the symbols (a clone of this one)
+        o = st or ocp
         op = e[0]
         if op == "c":
             return ca.MX(float(Fraction(e[1], e[2])))
@@ -310,71 +315,74 @@ def build_rockit(case, rockit, with_method=True, with_values=True, with_solver=T
             k = e[1]
             if k in S:
                 return S[k][e[2]]
-            return {"t": ocp.t, "T": ocp.T, "t0": ocp.t0, "DT": ocp.DT, "DTc": ocp.DT_control}[k]
+            return {"t": o.t, "T": o.T, "t0": o.t0, "DT": o.DT, "DTc": o.DT_control}[k]
         if op == "+":
-            return ex(e[1]) + ex(e[2])
+            return ex(e[1], st) + ex(e[2], st)
         if op == "-":
-            return ex(e[1]) - ex(e[2])
+            return ex(e[1], st) - ex(e[2], st)
         if op == "*":
-            return ex(e[1]) * ex(e[2])
+            return ex(e[1], st) * ex(e[2], st)
         if op == "/":
-            return ex(e[1]) / ex(e[2])
+            return ex(e[1], st) / ex(e[2], st)
         if op == "neg":
-            return -ex(e[1])
+            return -ex(e[1], st)
         if op == "pow":
-            return ex(e[1]) ** e[2]
+            return ex(e[1], st) ** e[2]
         if op == "off":
             n = e[1]
             if n == 1 and e[3:] == ["next"]:
-                return ocp.next(ex(e[2]))
+                return o.next(ex(e[2], st))
             if n == -1 and e[3:] == ["prev"]:
-                return ocp.prev(ex(e[2]))
-            return ocp.offset(ex(e[2]), n)
+                return o.prev(ex(e[2], st))
+            return o.offset(ex(e[2], st), n)
         raise ValueError(e)
 
     B.ex = ex
     B.integrals = {}
 
-    def pex(e):
+    def pex(e, st=None):
+        o = st or ocp
         op = e[0]
         if op == "c":
             return ca.MX(float(Fraction(e[1], e[2])))
         if op == "at0":
-            return ocp.at_t0(ex(e[1]))
+            return o.at_t0(ex(e[1], st))
         if op == "atf":
-            return ocp.at_tf(ex(e[1]))
+            return o.at_tf(ex(e[1], st))
         if op == "int":
             i = e[1]
             if i < nq_explicit:
-                return ocp.at_tf(S["q"][i])
+                return o.at_tf(S["q"][i])
+            if st is not None:
+                return st.integral(ex(case["quad"][i], st))
             if i not in B.integrals:
-                B.integrals[i] = ocp.integral(ex(case["quad"][i]))
+                B.integrals[i] = o.integral(ex(case["quad"][i]))
             return B.integrals[i]
         if op == "sum":
-            return ocp.sum(ex(e[1]))
+            return o.sum(ex(e[1], st))
         if op == "sump":
-            return ocp.sum(ex(e[1]), include_last=True)
+            return o.sum(ex(e[1], st), include_last=True)
         if op == "intc":
-            return ocp.integral(ex(e[1]), grid="control")
+            return o.integral(ex(e[1], st), grid="control")
         if op == "g":
             k = e[1]
             if k in S:
                 return S[k][e[2]]
             if k == "tf":
-                return ocp.tf
-            return {"T": ocp.T, "t0": ocp.t0}[k]
+                return o.tf
+            return {"T": o.T, "t0": o.t0}[k]
         if op == "+":
-            return pex(e[1]) + pex(e[2])
+            return pex(e[1], st) + pex(e[2], st)
         if op == "-":
-            return pex(e[1]) - pex(e[2])
+            return pex(e[1], st) - pex(e[2], st)
         if op == "*":
-            return pex(e[1]) * pex(e[2])
+            return pex(e[1], st) * pex(e[2], st)
         if op == "/":
-            return pex(e[1]) / pex(e[2])
+            return pex(e[1], st) / pex(e[2], st)
         if op == "neg":
-            return -pex(e[1])
+            return -pex(e[1], st)
         if op == "pow":
-            return pex(e[1]) ** e[2]
+            return pex(e[1], st) ** e[2]
         raise ValueError(e)
 
     B.pex = pex
@@ -439,7 +447,12 @@ def build_rockit(case, rockit, with_method=True, with_values=True, with_solver=T
         rels = c["rels"]
         if form == "between":
             # rels = [lo <= e, e <= hi]
-            expr = f(rels[0]["lhs"]) <= (f(rels[0]["rhs"]) <= f(rels[1]["rhs"]))
+            mid = f(rels[0]["rhs"])
+            if mid.is_constant():
+                # lo <= (const <= hi) is evaluated by CasADi as a nested comparison before rockit
+                # sees it: the generated relation carries no information (skipped by compare_case)
+                raise ValueError("You passed a constant middle expression (generated two-sided relation folded by CasADi)")
+            expr = f(rels[0]["lhs"]) <= (mid <= f(rels[1]["rhs"]))
         elif form == "ge":
             # rels = [rhs <= lhs] written as lhs' >= rhs'
             expr = ca.vertcat(*[f(r["rhs"]) for r in rels]) >= ca.vertcat(*[f(r["lhs"]) for r in rels])
